@@ -154,7 +154,7 @@ pub fn monitor_c01() -> super::Monitor {
             "the reader keeps reading in the reliable phase (TIME-WAIT expiry discards unread data)",
         ],
         floors: &[("runs", 200), ("bytes_delivered_and_compared", 100_000), ("retransmissions", 50), ("out_of_order_arrivals", 20), ("distinct", 30)],
-        parts: vec![super::Part { name: "pair", cases: |c| c.n(15_000, 600_000), f: c01_case }],
+        parts: vec![super::Part { name: "pair", cases: |c| c.n(15_000, 300_000), f: c01_case }],
         post: None,
     }
 }
@@ -168,7 +168,7 @@ pub fn monitor_c02() -> super::Monitor {
             "fault model: drop/duplicate/delay/reorder/one-byte corruption; delays far below the sequence-space wrap time",
         ],
         floors: &[("runs", 200), ("invariant_I_evaluations", 20_000), ("obligation_data", 1000), ("obligation_syn", 200), ("obligation_fin", 200), ("completed_runs", 100)],
-        parts: vec![super::Part { name: "pair", cases: |c| c.n(15_000, 600_000), f: c02_case }],
+        parts: vec![super::Part { name: "pair", cases: |c| c.n(15_000, 300_000), f: c02_case }],
         post: None,
     }
 }
@@ -183,7 +183,7 @@ pub fn monitor_c05() -> super::Monitor {
             "the device does not declare max_burst_size in these runs, so the SYN window equals the free receive buffer capped at 65535",
         ],
         floors: &[("runs", 200), ("c05_data_segments", 50_000), ("c05_retransmitted_segments", 500), ("c05_zero_window_probes", 5)],
-        parts: vec![super::Part { name: "pair", cases: |c| c.n(15_000, 600_000), f: c05_case }],
+        parts: vec![super::Part { name: "pair", cases: |c| c.n(15_000, 300_000), f: c05_case }],
         post: None,
     }
 }
@@ -194,7 +194,7 @@ pub fn monitor_c13() -> super::Monitor {
         rule: "(S) after a regular poll answered deadline D, an extra poll at a random instant strictly inside (now, D) (or now+{1ms,1s,1h} when D is None), with no frame received and no socket call in between, must transmit nothing; (N) after a poll that neither received nor transmitted a frame, poll_at must be None or strictly later than that poll's timestamp. A class is the kind of pending work x verdict kind.",
         assumptions: &["IGMP/MLD report frames are outside the claim and ignored"],
         floors: &[("S_probes", 20_000), ("N_evaluations", 50)],
-        parts: vec![super::Part { name: "tcp-pair", cases: |c| c.n(15_000, 600_000), f: c13_case }],
+        parts: vec![super::Part { name: "tcp-pair", cases: |c| c.n(15_000, 300_000), f: c13_case }],
         post: None,
     }
 }
